@@ -195,7 +195,31 @@ func runC05Case(r *ev.Run, c c05Case) {
 	if has("SMTPUTF8") {
 		wantMailParams["SMTPUTF8"] = ""
 	}
+	anyDSNParams := false // combinations of several DSN options: only the well-formedness of what they produce is judged
 	switch {
+	case strings.HasPrefix(c.DSN, "combo:"):
+		anyDSNParams = true
+		for _, o := range strings.Split(strings.TrimPrefix(c.DSN, "combo:"), "|") {
+			var opt mail.Option
+			switch {
+			case o == "default":
+				opt = mail.WithDSN()
+			case strings.HasPrefix(o, "notify:"):
+				var ns []mail.DSNRcptNotifyOption
+				for _, n := range strings.Split(strings.TrimPrefix(o, "notify:"), ",") {
+					ns = append(ns, mail.DSNRcptNotifyOption(n))
+				}
+				opt = mail.WithDSNRcptNotifyType(ns...)
+			case strings.HasPrefix(o, "ret:"):
+				opt = mail.WithDSNMailReturnType(mail.DSNMailReturnOption(strings.TrimPrefix(o, "ret:")))
+			}
+			if _, err := mail.NewClient(netHost, append(append([]mail.Option{}, opts...), opt)...); err != nil {
+				r.Count("dsn_options_rejected", 1)
+				continue
+			}
+			r.Count("dsn_options_accepted", 1)
+			opts = append(opts, opt)
+		}
 	case c.DSN == "default":
 		opts = append(opts, mail.WithDSN())
 		if has("DSN") {
@@ -362,11 +386,18 @@ func runC05Case(r *ev.Run, c c05Case) {
 			if !rejected && got != sender {
 				viol("reverse-path-wrong:"+localClass(sender), fmt.Sprintf("MAIL FROM denotes %q, the caller's sender is %q: %s", got, sender, cr.Line), nil)
 			}
+			if anyDSNParams {
+				delete(wantMailParams, "RET")
+				cr.Parsed.Params = dropParam(cr.Parsed.Params, "RET")
+			}
 			checkParamSet(viol, "MAIL", cr.Parsed.Params, wantMailParams, cr.Line)
 		case "RCPT":
 			r.Count("paths_checked", 1)
 			if cr.Parsed.Path != nil {
 				rcptSeen = append(rcptSeen, cr.Parsed.Path.Local+"@"+cr.Parsed.Path.Domain)
+			}
+			if anyDSNParams {
+				cr.Parsed.Params = dropParam(cr.Parsed.Params, "NOTIFY")
 			}
 			checkParamSet(viol, "RCPT", cr.Parsed.Params, wantRcptParams, cr.Line)
 		}
@@ -522,6 +553,16 @@ func checkParamSet(viol func(string, string, any), which string, got []rfc5321.P
 	}
 }
 
+func dropParam(ps []rfc5321.Param, key string) []rfc5321.Param {
+	var out []rfc5321.Param
+	for _, p := range ps {
+		if !strings.EqualFold(p.Key, key) {
+			out = append(out, p)
+		}
+	}
+	return out
+}
+
 func sameSet(a, b string) bool {
 	x, y := strings.Split(a, ","), strings.Split(b, ",")
 	sort.Strings(x)
@@ -531,7 +572,7 @@ func sameSet(a, b string) bool {
 
 func runC05(r *ev.Run, rep *ev.ReplayDoc) ev.Summary {
 	sum := ev.Summary{
-		Rule: "addresses built from (local part, domain) pairs - dot-atoms and quoted-string local parts with blank, <, >, @, comma, ;, :, backslash, quote, UTF-8 and smuggling payloads such as 'a> NOTIFY=NEVER ORCPT=rfc822;x <b' - in four spellings and through the *Format setters, as From / EnvelopeFrom / To / Cc / Bcc (every local part in every role); HELO names with blanks, tabs, CR, LF, embedded commands, 600 characters (through WithHELO, and through smtp.Client.Hello with the caller carrying on after a refusal); credentials with CR/LF/blanks/controls for PLAIN, LOGIN, CRAM-MD5, XOAUTH2, SCRAM; every DSN option set the typed setters accept or must reject; capability subsets. Every raw line received outside DATA is parsed with the strict RFC 5321 grammar. distinct by case",
+		Rule: "addresses built from (local part, domain) pairs - dot-atoms and quoted-string local parts with blank, <, >, @, comma, ;, :, backslash, quote, UTF-8 and smuggling payloads such as 'a> NOTIFY=NEVER ORCPT=rfc822;x <b' - in four spellings and through the *Format setters, as From / EnvelopeFrom / To / Cc / Bcc (every local part in every role); HELO names with blanks, tabs, CR, LF, embedded commands, 600 characters (through WithHELO, and through smtp.Client.Hello with the caller carrying on after a refusal); credentials with CR/LF/blanks/controls for PLAIN, LOGIN, CRAM-MD5, XOAUTH2, SCRAM; every DSN option set the typed setters accept or must reject, several DSN options together in both orders; capability subsets. Every raw line received outside DATA is parsed with the strict RFC 5321 grammar. distinct by case",
 		Assumptions: []string{
 			"the intended mailbox is known by construction (local part + domain); a case whose address a setter rejected is only judged for line well-formedness",
 			"a stray '*' after a final AUTH reply is C04's known finding and not attributed to this property",
@@ -614,6 +655,15 @@ func runC05(r *ev.Run, rep *ev.ReplayDoc) ev.Summary {
 	for _, v := range []string{"FULL", "HDRS", "FULL\r\n", "HDRS ", " FULL", "full", "hdrs", "HDRS ENVID=x", "FULL\r\nRSET", "FULL\n", "HDRS\x00", "BOGUS", ""} {
 		dsnSets = append(dsnSets, "ret:"+v)
 	}
+	// several DSN options together, in both orders
+	for _, a := range []string{"default", "notify:NEVER", "notify:DELAY", "notify:SUCCESS,FAILURE", "ret:HDRS", "ret:FULL"} {
+		for _, b := range []string{"default", "notify:NEVER", "notify:DELAY", "ret:HDRS"} {
+			if a != b {
+				dsnSets = append(dsnSets, "combo:"+a+"|"+b)
+			}
+		}
+	}
+	dsnSets = append(dsnSets, "combo:notify:NEVER|ret:HDRS|default", "combo:default|notify:NEVER|default")
 	for _, d := range dsnSets {
 		for _, caps := range [][]string{allCaps, {"8BITMIME"}, {"DSN"}, nil} {
 			cases = append(cases, c05Case{From: plain(0), To: []c05Addr{plain(1), plain(2)}, DSN: d, Caps: caps, Kind: "dsn"})
